@@ -56,6 +56,14 @@ CLAIMS = {
             "Bounded stand-in only (labelled bounded, never counted as proved): the DESIGN's template lemmas by SMT induction over ticks were not built; see DESIGN §4.",
             "Trusted: S2 tick model, S3 memory semantics; bounded histories / tick counts / value pools as printed in the evidence.",
             "DESIGN §4 C05"),
+    "C14": ("other", "exceptional postconditions on the real diagnostics / symbol-table functions (pyvc, unbounded) + bounded embedding of rule violations into accepted hosts through the real compile_dsl_source",
+            "Abort-on-error and scoping primitives are proved for all inputs; the rule x embedding quantifier is covered by an enumerated scope (bounded stand-in).",
+            "Trusted: pyvc encoding; Lark reports syntax errors as exceptions; bounded: 22 rules x snippets x embeddings.",
+            "DESIGN §4 C14"),
+    "C07": ("other", "bounded matrix of real CLI subprocess invocations; emitted text decoded with the standard library and executed by the S2 circuit model against S3 by SMT for all inputs",
+            "Bounded stand-in (labelled bounded): programs x invocation modes; per decoded blueprint the input quantifier is decided by SMT.",
+            "Trusted: base64/zlib/json, S2/S3; draftsman's 2.0 converter is lossless for the fields the emitter sets.",
+            "DESIGN §4 C07"),
     "C16": ("other", "contract-based deductive verification (pyvc VCs with inductive loop invariants + variants on the real ForStmt.get_iteration_values) plus bounded stand-ins for the lowering plumbing",
             "The iteration sequence is proved for all (start, stop, step) and list iterators; the per-iteration scoping in the analyzer/lowerer is checked by bounded stand-ins, labelled as such.",
             "Trusted: pyvc encoding, composition lemma, 'IR equal up to fresh ids => same circuit'.",
